@@ -51,8 +51,10 @@ def probe_table():
     PH = make_ph()
     m, els, vals, arrs = env()
     entries, attrmap, problems = [], {}, []
+    built = {}
 
     def add(key, obj, phs):
+        built[key] = obj
         try:
             text = obj.term("t")
             words = pyfrag.lex(text)
@@ -115,6 +117,7 @@ def probe_table():
             obj = cls(*args)
             words = pyfrag.lex(obj.term("t"))
             extended.append((name, len(phs), words))
+            built[name] = obj
         except Exception as ex:
             problems.append((name, f"{type(ex).__name__}: {str(ex)[:80]}"))
     try:
@@ -125,7 +128,43 @@ def probe_table():
         extended.append(("Pulse[first]", 1, pyfrag.lex(Pulse(m2, ph, 2.0, 0.0).term("t"))))
     except Exception as ex:
         problems.append(("Pulse[first]", str(ex)[:80]))
+    probe_table.built = built
+    probe_table.element = els["a"]
     return entries, attrmap, extended, problems
+
+
+def probe_negated(built, element):
+    """unary minus as a BUILD step: for every operator class (and a plain element) the text of `-e`, `-(-e)`, `-(-(-e))`
+    with the text of `e` itself replaced by hole 0.  Returns {n: [(key, 1, words)]}, problems."""
+    rows, problems = {1: [], 2: [], 3: []}, []
+    for key, obj in [("Element", element)] + sorted(built.items()):
+        try:
+            mine = pyfrag.lex(obj.term("t"))
+            cur = obj
+            for n in (1, 2, 3):
+                cur = -cur
+                words = pyfrag.lex(cur.term("t"))
+                # the operand is the innermost = LAST occurrence of its own text (a class whose text is a bare number,
+                # e.g. DT -> `1.0`, also occurs inside the literal `-1.0`)
+                pos = [i for i in range(len(words) - len(mine) + 1) if words[i:i + len(mine)] == mine]
+                out = words[:pos[-1]] + ["H0"] + words[pos[-1] + len(mine):] if pos else words
+                rows[n].append((key, 1, out))
+        except Exception as ex:
+            problems.append((key, f"{type(ex).__name__}: {str(ex)[:80]}"))
+    return rows, problems
+
+
+def is_negn(sx, n):
+    """Python twin of Lean `isNegN`: the S-expression is n nested `(-1.0) * …` around hole 0"""
+    for _ in range(n):
+        for lit in ("1.0", "1"):
+            pre = f"(* (neg (num {lit})) "
+            if sx.startswith(pre) and sx.endswith(")"):
+                sx = sx[len(pre):-1]
+                break
+        else:
+            return False
+    return sx == "(hole 0)"
 
 
 REFLECTED = {"__radd__": "+", "__rsub__": "-", "__rmul__": "*", "__rtruediv__": "/", "__rmod__": "%", "__rpow__": "**"}
@@ -214,7 +253,7 @@ def ref_eval(g, vals, arrs):
             s = x[0] * y[0]
             for i in range(1, len(x)): s = s + x[i] * y[i]
             return s
-    c = [ref_eval(x, vals, arrs) for x in g[1:]]
+    c = [ref_eval(x, vals, arrs) if isinstance(x, tuple) else x for x in g[1:]]
     try:
         if k == "add": r = c[0] + c[1]
         elif k == "sub": r = c[0] - c[1]
@@ -227,6 +266,10 @@ def ref_eval(g, vals, arrs):
         elif k == "abs": r = abs(c[0])
         elif k == "sqrt": r = c[0] ** (1 / 2)
         elif k == "exp": r = np.exp(c[0])
+        elif k in ("sin", "cos", "tan", "arctan"): r = getattr(np, k)(c[0])
+        elif k == "negshare":
+            # v = <operand>; (-v) <op> v   — the SAME Python object used twice (an intermediate variable)
+            return ref_eval((g[1], ("num", -1.0 * c[1]), ("num", c[1])), vals, arrs) if False else {"add": (-1.0 * c[1]) + c[1], "sub": (-1.0 * c[1]) - c[1], "mul": (-1.0 * c[1]) * c[1], "div": (-1.0 * c[1]) / c[1]}[g[1]]
         elif k == "not": r = not c[0]
         elif k == "min": r = min(c[0], c[1])
         elif k == "max": r = max(c[0], c[1])
@@ -260,7 +303,11 @@ def build_real(g, els, arrs):
         if g[1] == "dot": return arrs["v"][0].dot(arrs["w"][0])
         if g[1] == "arr_rank": return arrs[g[2]][0].arr_rank(2)
         return getattr(arrs[g[2]][0], g[1])()
-    c = [build_real(x, els, arrs) for x in g[1:]]
+    c = [build_real(x, els, arrs) if isinstance(x, tuple) else x for x in g[1:]]
+    if k in ("sin", "cos", "tan", "arctan"): return getattr(sd, k)(c[0])
+    if k == "negshare":
+        v = c[1]
+        return {"add": lambda: (-v) + v, "sub": lambda: (-v) - v, "mul": lambda: (-v) * v, "div": lambda: (-v) / v}[g[1]]()
     if k == "add": return c[0] + c[1]
     if k == "sub": return c[0] - c[1]
     if k == "mul": return c[0] * c[1]
@@ -292,7 +339,7 @@ def gshow(g):
     if k == "num": return repr(g[1])
     if k == "el": return g[1]
     if k == "agg": return f"{g[2]}.{g[1]}()" if g[1] != "dot" else "v.dot(w)"
-    return k + "(" + ", ".join(gshow(x) for x in g[1:]) + ")"
+    return k + "(" + ", ".join(gshow(x) if isinstance(x, tuple) else str(x) for x in g[1:]) + ")"
 
 
 def is_num(g):
@@ -465,6 +512,39 @@ def classification_cases():
     return [r for r, _ in rows], [i for i, _ in inner], [(r, i, mk(x)) for r, mk in rows for i, x in inner]
 
 
+def signed_trees():
+    """stacked unary minus (0–3 signs) over EVERY operator class / sd function the DSL offers, bare, through a shared
+    intermediate variable, and as left / right operand of an outer + - * / ; a unary minus is a build step
+    (`NumericalMultiplicationOperator(e, -1.0)`), so a rewrite there changes the operator tree, not the text"""
+    a, b, c = ("el", "a"), ("el", "b"), ("el", "c")
+    d_ab = ("sub", a, b)
+    heads = [a, ("num", 2.0)]
+    heads += [(op, a, b) for op in ["add", "sub", "mul", "div", "pow"]] + [("mod", ("agg", "arr_sum", "v"), b)]
+    heads += [(op, a, b) for op in CMPN] + [("min", a, b), ("max", a, b), ("and", a, b), ("or", a, b), ("not", a)]
+    heads += [("mul", ("num", 2.0), a), ("mul", a, ("num", 2.0)), ("neg", a)]
+    heads += [(f, d_ab) for f in ["abs", "exp", "sin", "cos", "tan", "arctan"]] + [("sqrt", ("abs", d_ab)), ("round", ("div", a, b))]
+    heads += [(f, ("num", 2.0)) for f in ["abs", "exp"]] if False else []
+    heads += [("abs", a), ("exp", b), ("if", ("gt", a, b), a, b)]
+    heads += [("agg", k, "v") for k in AGG[:7]] + [("agg", "dot", "v"), ("agg", "arr_sum", "mm")]
+    def neg(x, n):
+        for _ in range(n):
+            x = ("neg", x)
+        return x
+    out = []
+    for h in heads:
+        for n in range(4):
+            x = neg(h, n)
+            out.append(x)
+            for op in ["add", "sub", "mul", "div"]:
+                out.append((op, x, c)); out.append((op, c, x))
+                if n >= 1:
+                    out.append(("negshare", op, neg(h, n - 1)))
+            for f in ["abs", "exp"]:
+                if n >= 1:
+                    out.append(neg((f, x), 2))           # -(-abs(-…h))
+    return out
+
+
 def number_side_trees(quick=True):
     """every binary Python operator the DSL overloads with a number on the LEFT (reflected overloads / mirrored
     comparisons) and on the RIGHT, over an element, a compound operand and a compound operand that itself has a number
@@ -519,9 +599,11 @@ def run(chk):
     entries, attrmap, extended, problems = probe_table()
     keyidx = {e[0]: i for i, e in enumerate(entries)}
     refl, refl_unspec, refl_problems = probe_reflected()
+    negrows, neg_problems = probe_negated(probe_table.built, probe_table.element)
     table_src = ("import Bptk.Core.PyFrag\n/-! GENERATED from /repo by harness/props/c02.py on every run — do not edit. -/\n"
                  + pyfrag.lean_table("table", entries, "Bptk.C02.Gen") + pyfrag.lean_table("extended", extended, "Bptk.C02.Gen")
-                 + pyfrag.lean_table("reflected", [r[:3] for r in refl], "Bptk.C02.Gen"))
+                 + pyfrag.lean_table("reflected", [r[:3] for r in refl], "Bptk.C02.Gen")
+                 + "".join(pyfrag.lean_table(f"negated{n}", negrows[n], "Bptk.C02.Gen") for n in (1, 2, 3)))
     write_if_changed(os.path.join(LEAN, "Bptk", "Gen", "C02Table.lean"), table_src)
     b = lake_build(["Bptk.Gen.C02Table", "Bptk.Core.PyWire"])
     if not b["ok"]:
@@ -541,6 +623,22 @@ def run(chk):
               "theorem complete (e : E) (he : E.ok table L e = true) : parse (render table e) = some (denote table e) :=\n  (C02_parse_complete table table_ok e he).1\n#print axioms complete\n")
     else:
         ob = "theorem table_not_ok : tableOK L table = false := by decide +kernel\n#print axioms table_not_ok\n"
+    # unary minus as a build step: `-e` n times must be n nested `(-1.0) * (…)` around e itself, for every class
+    neg_bad, neg_folded = {}, []
+    for n in (1, 2, 3):
+        nout = drive("C02", ["parse " + " ".join(r[2]) for r in negrows[n]]) if negrows[n] else []
+        for r, o in zip(negrows[n], nout):
+            # m <= n nested (-1.0)* with m = n (mod 2): cancelling pairs of signs is exact, hence a harmless rewrite
+            ms = [m for m in range(n, -1, -2) if o.startswith("sexp ") and is_negn(o[5:], m)]
+            if not ms:
+                neg_bad[f"{r[0]} x{n}"] = o[:120]
+            elif ms[0] != n:
+                neg_folded.append(f"{r[0]} x{n}->x{ms[0]}")
+    for n in (1, 2, 3):
+        if not any(k.endswith(f"x{n}") for k in neg_bad):
+            ob += (f"theorem neg{n}_ok : negOK {n} negated{n} = true := by decide +kernel\n#print axioms neg{n}_ok\n")
+        else:
+            ob += (f"theorem neg{n}_not_ok : negOK {n} negated{n} = false := by decide +kernel\n#print axioms neg{n}_not_ok\n")
     if not refl_bad:
         ob += ("theorem refl_ok : reflOK reflected = true := by decide +kernel\n#print axioms refl_ok\n"
                "theorem refl_denotes (t : Tmpl) (ht : t ∈ reflected) (k : BinOp) (hk : reflOp t.cls = some k) (α : Type) (C : Carrier α) (ρ : Nat → α) :\n"
@@ -571,6 +669,9 @@ def run(chk):
     ns = number_side_trees(chk.quick)
     n_ns = len(ns)
     trees += ns
+    st = signed_trees()
+    n_st = len(st)
+    trees += st
     rng = chk.rng.fork("c02")
     for _ in range(400 if chk.quick else 6000):
         trees.append(gen_tree(rng, rng.range(2, 5)))
@@ -677,6 +778,8 @@ def run(chk):
     chk.cov["exhaustive_depth2_trees"] = n_exh
     chk.cov["depth3_reduced_alphabet_trees"] = n_d3
     chk.cov["number_left_right_trees"] = n_ns
+    chk.cov["stacked_minus_trees"] = n_st
+    chk.cov["negated_builds"] = {"classes": len(negrows[1]), "not_ok": neg_bad, "sign_pairs_cancelled": neg_folded[:10], "problems": neg_problems}
     chk.cov["reflected_overloads"] = {"probed": [r[0] for r in refl], "not_ok": refl_bad, "unspecified": refl_unspec, "problems": refl_problems}
     chk.cov["distribution"] = stats
     # classification table: one string per row (outer operator[position], kind of the other operand), one letter per inner form
@@ -694,6 +797,7 @@ def run(chk):
     }
     chk.cov["rule"] = (f"every outer operator × operand position × inner operator of the C02 vocabulary (depth 2{', plus all +-*/**% triples at depth 3' if not chk.quick else ''}; {n_exh} trees){f', all depth-3 spines and two-compound-operand trees over the reduced alphabet (one representative per precedence level / associativity class) × all operand positions ({n_d3} trees)' if n_d3 else ''}, "
                        f"every overloaded binary operator with a number on the left / right of an element, a compound and a number-sided compound operand ({n_ns} trees, depth 2–3), "
+                       f"0–3 stacked unary minus over every operator class / sd function, bare, through a shared variable and under outer + − × ÷ ({n_st} trees), "
                        f"the classification table outer[position] × inner form × kind of the other operand incl. number-on-the-left forms ({len(ccases)} cases) "
                        "and seeded random trees to depth 5; per tree: real term text = Lean render; Lean parse = CPython ast.parse; denote = parse; parse with the proved fuel bound 2·length+2 = parse; real value = Python arithmetic. "
                        "distinct = canonical expression text; non-trivial = at least one compound operand")
@@ -720,6 +824,9 @@ def run(chk):
     if bad and ref_fail is None:
         chk.add_finding("obligation", f"tableOK fails for {bad} and no expression with a wrong value was found",
                         {"theorem": "Bptk.C02.Gen.table_ok (tableOK L table)", "not_ok": bad}, found_input=False)
+    if neg_bad and ref_fail is None:
+        chk.add_finding("obligation", f"unary minus does not build (-1.0)*(operand) for: {neg_bad} and no expression with a wrong value was found",
+                        {"theorem": "Bptk.C02.Gen.negN_ok (negOK n negatedN)", "not_ok": neg_bad}, found_input=False)
     if refl_bad and ref_fail is None:
         chk.add_finding("obligation", f"reflected overloads do not build `other op self`: {refl_bad} and no expression with a wrong value was found",
                         {"theorem": "Bptk.C02.Gen.refl_ok (reflOK reflected)", "not_ok": refl_bad}, found_input=False)
